@@ -318,3 +318,118 @@ impl Group for Dispatch {
         }
     }
 }
+
+/// commands arriving while an earlier one is still in flight (`wait` pending, or a client that stalls)
+pub struct InFlight;
+impl Group for InFlight {
+    fn name(&self) -> &'static str {
+        "c19.inflight"
+    }
+    fn rule(&self) -> &'static str {
+        "a fresh instance per case; an earlier exchange is kept in flight — a `wait` command (answered only at shutdown) and/or a client that connected and sends nothing yet — then 1-4 `ping`s with generated arguments must each be answered within 3 s exactly as the dispatch model says; finally the stalled client completes its request and `shutdown` releases `wait`; non-trivial = always"
+    }
+    fn parallel(&self) -> bool {
+        false
+    }
+    fn generate(&self, ctx: &Ctx, rng: &mut Rng) -> Vec<String> {
+        let n = if ctx.mode == Mode::Quick { 6 } else { 60 };
+        (0..n)
+            .map(|i| {
+                let kind = ["wait", "stall", "both"][i % 3];
+                let pings = list((0..rng.range(1, 4)).map(|_| {
+                    let mut m = String::from("ping");
+                    for _ in 0..rng.below(3) {
+                        m.push(' ');
+                        kvarn_utils::encode_quoted_str(&gen_string(rng, 6), &mut m);
+                    }
+                    hex(m.as_bytes())
+                }));
+                format!("c19.inflight {kind} {pings}")
+            })
+            .collect()
+    }
+    fn driver_line(&self, _l: &str) -> String {
+        "c19.split -".into()
+    }
+    fn canon(&self, out: &str) -> String {
+        if out == "ok" || out == "[]" { "match".into() } else { out.to_owned() }
+    }
+    fn run_impl(&self, ctx: &Ctx, line: &str) -> String {
+        use std::io::Write;
+        let p: Vec<&str> = line.split(' ').collect();
+        let rt = tokio::runtime::Builder::new_multi_thread().worker_threads(3).enable_all().build().unwrap();
+        let dir = ctx.work.join("c19");
+        std::fs::create_dir_all(&dir).unwrap();
+        static N: std::sync::atomic::AtomicUsize = std::sync::atomic::AtomicUsize::new(0);
+        let path = dir.join(format!("inflight-{}-{}.sock", std::process::id(), N.fetch_add(1, std::sync::atomic::Ordering::SeqCst)));
+        let _ = std::fs::remove_file(&path);
+        let p2 = path.clone();
+        let _mgr = rt.block_on(async move { kvarn::RunConfig::new().set_ctl_path(&p2).execute().await });
+        for _ in 0..300 {
+            if path.exists() { break; }
+            std::thread::sleep(std::time::Duration::from_millis(10));
+        }
+        let send = |data: Vec<u8>, secs: u64| -> Option<Vec<u8>> {
+            let path = path.clone();
+            rt.block_on(async move {
+                match tokio::time::timeout(std::time::Duration::from_secs(secs), kvarn_signal::unix::send_to(data, &path)).await {
+                    Ok(kvarn_signal::unix::Response::Data(d)) => Some(d),
+                    _ => None,
+                }
+            })
+        };
+        // the in-flight exchanges
+        let mut wait_handle = None;
+        if p[1] == "wait" || p[1] == "both" {
+            let path = path.clone();
+            wait_handle = Some(rt.spawn(async move { kvarn_signal::unix::send_to(b"wait".to_vec(), &path).await }));
+            std::thread::sleep(std::time::Duration::from_millis(150));
+        }
+        let mut stalled = None;
+        if p[1] == "stall" || p[1] == "both" {
+            stalled = std::os::unix::net::UnixStream::connect(&path).ok();
+            std::thread::sleep(std::time::Duration::from_millis(150));
+        }
+        let mut problems = Vec::new();
+        let mut lines = Vec::new();
+        let mut observed = Vec::new();
+        for h in parse_list(p[2]).unwrap() {
+            lines.push(format!("c19.dispatch {h}"));
+            match send(unhex(&h).unwrap(), 3) {
+                Some(d) => observed.push(format!("close=0 data={}", hex(&d))),
+                None => { observed.push("no-reply".into()); problems.push(format!("`{}` was not answered while another exchange was in flight", String::from_utf8_lossy(&unhex(&h).unwrap()))); break; }
+            }
+        }
+        // the stalled client now sends its request and must be answered too
+        if let Some(mut s) = stalled {
+            use std::io::Read;
+            let _ = s.write_all(b"ping late");
+            let _ = s.shutdown(std::net::Shutdown::Write);
+            let _ = s.set_read_timeout(Some(std::time::Duration::from_secs(3)));
+            let mut buf = Vec::new();
+            let _ = s.read_to_end(&mut buf);
+            if !buf.starts_with(b"ok") { problems.push(format!("the stalled client got {:?}", String::from_utf8_lossy(&buf))); }
+        }
+        let sd = send(b"shutdown".to_vec(), 5);
+        if sd.as_deref().map_or(true, |d| !d.starts_with(b"ok")) { problems.push(format!("shutdown not acknowledged: {sd:?}")); }
+        if let Some(h) = wait_handle {
+            let r = rt.block_on(async move { tokio::time::timeout(std::time::Duration::from_secs(5), h).await });
+            match r {
+                Ok(Ok(kvarn_signal::unix::Response::Data(d))) if d.starts_with(b"ok") => {}
+                _ => problems.push("`wait` was not released by shutdown".to_owned()),
+            }
+        }
+        rt.shutdown_background();
+        let predicted = run_driver(&ctx.driver, &lines[..observed.len()]).unwrap_or_default();
+        for (o, m) in observed.iter().zip(&predicted) {
+            if o != m && o != "no-reply" { problems.push(format!("reply {o} but the model says {m}")); }
+        }
+        if problems.is_empty() { "ok".into() } else { format!("wedged {}", problems.join(" || ")) }
+    }
+    fn oracle(&self, _ctx: &Ctx, line: &str, out: &str) -> Option<(String, String)> {
+        if out == "ok" { None } else { Some((format!("inflight:{line}"), out.to_owned())) }
+    }
+    fn classify(&self, l: &str, o: &str) -> String {
+        format!("{} {}", l.split(' ').nth(1).unwrap_or(""), o.split(' ').next().unwrap_or(""))
+    }
+}
